@@ -547,6 +547,32 @@ func dialCfg(repo string) (recheck, exclusive bool) {
 	return
 }
 
+// ---- hub/hub_connections.go keepThisConnection: the older connection of a double connection is ended without delay
+func lifeCfg(repo string) (closeOldNow bool) {
+	f := parse(repo, "hub/hub_connections.go")
+	fd := funcDecl(f, "keepThisConnection")
+	if fd == nil {
+		return false
+	}
+	found, ok := 0, true
+	ast.Inspect(fd.Body, func(x ast.Node) bool {
+		c, isCall := x.(*ast.CallExpr)
+		if !isCall || sel(c.Fun) != "CloseConnection" {
+			return true
+		}
+		found++
+		if len(c.Args) < 1 {
+			ok = false
+			return true
+		}
+		if id, isId := c.Args[0].(*ast.Ident); !isId || id.Name != "false" {
+			ok = false
+		}
+		return true
+	})
+	return found > 0 && ok
+}
+
 // ---- hub: Shutdown against establishments under way
 func shutCfg(repo string) (recheck, exclusive, guardAtStart bool) {
 	cf := parse(repo, "hub/hub_connections.go")
@@ -1182,6 +1208,7 @@ func main() {
 		a, b, g := shutCfg(*repo)
 		files["ShutFacts.lean"] = fmt.Sprintf("/- GENERATED by /verif/extract from /repo — do not edit. -/\nimport ShipVerif.Model.Shut\nnamespace ShipVerif.Generated\n\n/-- hub/hub.go Shutdown, hub/hub_connections.go connectFoundService / ServeHTTP: design facts -/\ndef shutCfg : ShipVerif.Shut.Cfg := { recheck := %v, exclusive := %v, guardAtStart := %v }\n\nend ShipVerif.Generated\n", a, b, g)
 	}
+	files["LifeFacts.lean"] = fmt.Sprintf("/- GENERATED by /verif/extract from /repo — do not edit. -/\nimport ShipVerif.Model.Life\nnamespace ShipVerif.Generated\n\n/-- hub/hub_connections.go keepThisConnection: design facts -/\ndef lifeCfg : ShipVerif.Life.Cfg := { closeOldNow := %v }\n\nend ShipVerif.Generated\n", lifeCfg(*repo))
 	files["RegFacts.lean"] = fmt.Sprintf("/- GENERATED by /verif/extract from /repo — do not edit. -/\nimport ShipVerif.Model.Reg\nnamespace ShipVerif.Generated\n\n/-- hub/hub_shipconnection.go HandleConnectionClosed: design facts -/\ndef regCfg : ShipVerif.Reg.Cfg := { closeAtomic := %v }\n\nend ShipVerif.Generated\n", regCfg(*repo))
 	files["AsyncFacts.lean"] = fmt.Sprintf("/- GENERATED by /verif/extract from /repo — do not edit. -/\nimport ShipVerif.Model.View\nnamespace ShipVerif.Generated\n\n/-- mdns/mdns.go: reports are delivered under a mutex and dropped when a newer snapshot was delivered -/\ndef mdnsReportCfg : ShipVerif.Async.Cfg := { guarded := %v }\n\nend ShipVerif.Generated\n", mdnsReportGuarded(*repo))
 	if *withLocks {
